@@ -330,6 +330,8 @@ class GraphicsTerminal:
             use_save_cursor=use_save_cursor,
             use_line_feeds=use_line_feeds,
         )
+        # Printing moves the cursor in a way that is not tracked.
+        self.tracked_cursor_position = None
 
         if self.shellscript_out is not None:
             self.shellscript_out.write(f"# Placeholder {placeholder}\n")
